@@ -363,14 +363,19 @@ namespace verif
             uint16_t port = 0;
             bool running  = false;
 
+            // handler_first: setHandler() before init(options) - both orders are public usage and the options must
+            // reach the handler either way
             template <typename Configure>
-            void start(const std::shared_ptr<Pistache::Http::Handler>& handler, int threads, Configure cfg)
+            void start(const std::shared_ptr<Pistache::Http::Handler>& handler, int threads, Configure cfg, bool handler_first = false)
             {
                 ep.reset(new Pistache::Http::Endpoint(Pistache::Address("127.0.0.1", Pistache::Port(0))));
                 auto opts = Pistache::Http::Endpoint::options().threads(threads).flags(Pistache::Tcp::Options::ReuseAddr);
                 cfg(opts);
+                if (handler_first)
+                    ep->setHandler(handler);
                 ep->init(opts);
-                ep->setHandler(handler);
+                if (!handler_first)
+                    ep->setHandler(handler);
                 ep->serveThreaded();
                 port    = uint16_t(ep->getPort());
                 running = true;
